@@ -825,3 +825,20 @@ Lemma canonical_text_determined (hdr hdr' ek ek' mac mac' : list N) :
   hdr = hdr' -> ek = ek' -> mac = mac' ->
   spec_block_text hdr (ek, mac) = spec_block_text hdr' (ek', mac').
 Proof. intros -> -> ->. reflexivity. Qed.
+
+(* ------------------------------------------------------------------ *)
+(* data of the Examples of Properties/C02.v *)
+Definition ex_kbpk : bytes := [1;2;3;4;5;6;7;8;9;10;11;12;13;14;15;16].
+(* version B, usage P0, algorithm T, mode E, one optional block KS = "1234" *)
+Definition ex_header : header :=
+  mkHeader [cB] [80;48] [84] [69] [48;48] [78] [48;48] [([75;83], [49;50;51;52])].
+Definition ex_key : bytes := [17;34;51;68;85;102;119;136].
+Definition ex_tape : bytes :=
+  [201;202;203;204;205;206;207;208;209;210;211;212;213;214;215;216;217;218;219;220;221;222].
+Definition ex_wrap (cd ca : cipher) : str :=
+  match kb_wrap cd ca ex_kbpk ex_header ex_key None ex_tape with Ok s => s | Err _ => [] end.
+(* replace the character at position i *)
+Definition tamper (i : nat) (ch : N) (s : str) : str := firstn i s ++ ch :: skipn (S i) s.
+(* lower-case the hex letters from position i on *)
+Definition lower_from (i : nat) (s : str) : str :=
+  firstn i s ++ map (fun ch => if is_upper ch then ch + 32 else ch) (skipn i s).
